@@ -36,6 +36,7 @@ package join
 //   gOwned        backing arrays handed to the consumer for good (copy mode)
 //   gLent         backing array lent to the consumer until released (no-copy mode), 0 = none
 //   gLastDeliv    clock value at the last delivery (or at creation)
+//   gTick         the last event of the loop was a tick of the timeout ticker
 //   gJS, gTO, gNC the configured JoinSize, Timeout and no-copy mode (Opts at New)
 
 //@ ghost var gIn map[int]T
@@ -48,6 +49,7 @@ package join
 //@ ghost var gOwned set
 //@ ghost var gLent ref
 //@ ghost var gLastDeliv time
+//@ ghost var gTick bool
 //@ ghost var gJS int
 //@ ghost var gTO int
 //@ ghost var gNC bool
@@ -56,8 +58,10 @@ package join
 //@   effect gIn := ite(opened, store(gIn, gInN, item), gIn)
 //@   effect gInN := ite(opened, gInN + 1, gInN)
 //@   effect gClosed := gClosed || !opened
+//@   effect gTick := false
 
 //@ event recv ticker.C ()
+//@   effect gTick := true
 
 //@ event recv dsc.breaker.IsBreaked() ()
 //@   effect gStop := true
@@ -209,13 +213,15 @@ package join
 
 //@ func (*Discipline).loop
 //@   requires [*] INV(dsc)
+//@   requires [C10] !gTick
 //@   requires [*] dsc.interruptInterval > 0
 //@   requires [C09] gTO > 0
 //@   requires [C03] !gClosed
-//@   modifies dsc.join, elems(dsc.join), dsc.passAt, dsc.unreleased, gClock, gIn, gInN, gClosed, gOutN, gDelivPos, gLastDeliv, gLent, gOwned, gStop
+//@   modifies dsc.join, elems(dsc.join), dsc.passAt, dsc.unreleased, gClock, gIn, gInN, gClosed, gOutN, gDelivPos, gLastDeliv, gLent, gOwned, gStop, gTick
 //@   ensures [C03] gStop || (gClosed && gOutN == gInN)
 //@   ensures [C16] !gOutClosed
 //@   loop 0
+//@     invariant [C10] a-tick-after-the-timeout-flushes-the-buffer: gTick ==> (gClock - dsc.passAt >= gTO ==> (len(dsc.join) == 0 || dsc.unreleased))
 //@     invariant [*] INV(dsc)
 //@     invariant [C03] !gClosed
 
@@ -223,7 +229,7 @@ package join
 //@   requires [*] INV(dsc)
 //@   requires [C03] !gClosed
 //@   requires [C09] gTO <= 0
-//@   modifies dsc.join, elems(dsc.join), dsc.passAt, dsc.unreleased, gClock, gIn, gInN, gClosed, gOutN, gDelivPos, gLastDeliv, gLent, gOwned, gStop
+//@   modifies dsc.join, elems(dsc.join), dsc.passAt, dsc.unreleased, gClock, gIn, gInN, gClosed, gOutN, gDelivPos, gLastDeliv, gLent, gOwned, gStop, gTick
 //@   ensures [C03] gStop || (gClosed && gOutN == gInN)
 //@   ensures [C16] !gOutClosed
 //@   loop 0
@@ -232,9 +238,10 @@ package join
 
 //@ func (*Discipline).main
 //@   requires [*] INV(dsc)
+//@   requires [C10] !gTick
 //@   requires [C03] !gClosed
 //@   requires [C09] (dsc.interruptInterval == 0) <==> (gTO <= 0)
-//@   modifies dsc.join, elems(dsc.join), dsc.passAt, dsc.unreleased, gClock, gIn, gInN, gClosed, gOutN, gDelivPos, gLastDeliv, gLent, gOwned, gStop, gOutClosed
+//@   modifies dsc.join, elems(dsc.join), dsc.passAt, dsc.unreleased, gClock, gIn, gInN, gClosed, gOutN, gDelivPos, gLastDeliv, gLent, gOwned, gStop, gOutClosed, gTick
 
 //@ func Opts.isValid
 //@   ensures [*] (result == nil) <==> (opts.Input != nil && opts.JoinSize != 0)
@@ -246,7 +253,7 @@ package join
 // The ghost state of a discipline that does not exist yet is empty. JoinSize is a size
 // the runtime can allocate (otherwise make panics in New).
 //@ func New
-//@   requires [*] ghost-initial-state: gJS == opts.JoinSize && gTO == opts.Timeout && ((opts.Released != nil) <==> gNC) && gInN == 0 && gOutN == 0 && gDelivPos == 0 && !gClosed && !gStop && !gOutClosed && gLent == 0 && gLastDeliv == gClock && (forall r :: !in(gOwned, r))
+//@   requires [*] ghost-initial-state: !gTick && gJS == opts.JoinSize && gTO == opts.Timeout && ((opts.Released != nil) <==> gNC) && gInN == 0 && gOutN == 0 && gDelivPos == 0 && !gClosed && !gStop && !gOutClosed && gLent == 0 && gLastDeliv == gClock && (forall r :: !in(gOwned, r))
 //@   requires [*] allocatable: opts.JoinSize < two63
 //@   modifies gClock
 //@   ensures [*] result1 == nil ==> result0 != nil
